@@ -443,3 +443,447 @@ Section FluxHeader.
     eexists. reflexivity.
   Qed.
 End FluxHeader.
+
+(** * the info lines, read back *)
+Lemma flux_info_reads : forall sheb_rest nn w rest body,
+  ~ In nl sheb_rest -> ~ In nl nn -> ~ In nl w ->
+  let text := join [nl] ((s "#!" ++ sheb_rest) :: (s "#INFO (nodes) " ++ nn) :: (s "#INFO (walltime) " ++ w) :: rest)
+              ++ nl :: nl :: body in
+  read_flux_info text (s "nodes") = Some nn /\ read_flux_info text (s "walltime") = Some w.
+Proof.
+  intros sheb_rest nn w rest body N1 N2 N3 text. unfold text.
+  assert (L : lines_of (join [nl] ((s "#!" ++ sheb_rest) :: (s "#INFO (nodes) " ++ nn) :: (s "#INFO (walltime) " ++ w) :: rest)
+                        ++ nl :: nl :: body)
+              = (s "#!" ++ sheb_rest) :: (s "#INFO (nodes) " ++ nn) :: (s "#INFO (walltime) " ++ w)
+                :: (flat_map (split_on nl) rest ++ [] :: split_on nl body)).
+  { rewrite lines_of_script by discriminate. cbn [flat_map].
+    rewrite (split_on_notin nl (s "#!" ++ sheb_rest)).
+    2:{ apply notin_app; auto. simpl. intros [X|[X|[]]]; discriminate X. }
+    rewrite (split_on_notin nl (s "#INFO (nodes) " ++ nn)).
+    2:{ apply notin_app; auto. apply memN_false. reflexivity. }
+    rewrite (split_on_notin nl (s "#INFO (walltime) " ++ w)).
+    2:{ apply notin_app; auto. apply memN_false. reflexivity. }
+    reflexivity. }
+  unfold read_flux_info. rewrite L. split.
+  - change (s "#INFO (" ++ s "nodes" ++ s ") ") with (s "#INFO (nodes) ").
+    cbn [filter]. change (prefixb (s "#INFO (nodes) ") (s "#!" ++ sheb_rest)) with false. cbv iota.
+    rewrite prefixb_app. rewrite skipn_app, skipn_all, Nat.sub_diag. reflexivity.
+  - change (s "#INFO (" ++ s "walltime" ++ s ") ") with (s "#INFO (walltime) ").
+    cbn [filter]. change (prefixb (s "#INFO (walltime) ") (s "#!" ++ sheb_rest)) with false.
+    change (prefixb (s "#INFO (walltime) ") (s "#INFO (nodes) " ++ nn)) with false. cbv iota.
+    rewrite prefixb_app. rewrite skipn_app, skipn_all, Nat.sub_diag. reflexivity.
+Qed.
+
+(** * the Flux launcher invocation of a step *)
+Lemma reads_as_flux : forall wp wn c g o,
+  reads_as (opt_pair RTasks wp ++ [(RNodes, wn)] ++ opt_pair RCpusPerTask (Some c) ++ opt_pair RGpus g ++ opt_pair ROpts o)
+           [(RTasks, wp); (RNodes, Some wn); (RCpusPerTask, Some c); (RGpus, g); (ROpts, o)] fluxrun_keys = true.
+Proof.
+  intros. unfold reads_as, fluxrun_keys. destruct wp, g, o; simpl; rewrite ?str_eqb_refl; reflexivity.
+Qed.
+
+Section FluxStep.
+  Variable c : case.
+  Hypothesis HP : H15_parts c.
+  Hypothesis FP : flux_parts c.
+  Hypothesis BP : batch_parts (c_be c) (c_batch c).
+  Let st := c_step c.
+  Let b := c_batch c.
+  Let addl := addl_args st.
+  Let bd := flux_bd b.
+  Let nodes := run_val st (s "nodes").
+  Let procs := run_val st (s "procs").
+  Let par := par_flux bd (b_args b) addl.
+
+  Definition ftext (pv nv : val) : str :=
+    flux_text (tval pv) (render (flux_ntasks bd nv)) (flux_cpt addl) (tval (v_gpus c)) (flux_o (b_args b)).
+  Definition tsub_flux (f : tokform) : str := ftext (snd (tok_vals f)) (fst (tok_vals f)).
+  Definition bsub_flux : str := ftext procs nodes.
+
+  Lemma par_flux_ftext : forall pv nv, par pv nv = Ok (ftext pv nv).
+  Proof. intros. unfold par, ftext. rewrite par_flux_eq. reflexivity. Qed.
+
+  Lemma bd_nodes_val : get_default bd (s "nodes") (VInt 1) = get_default (b_kw b) (s "nodes") (VStr (s "1")).
+  Proof.
+    unfold bd, flux_bd, get_default at 1. cbn [lookup]. change (str_eqb (s "nodes") (s "version")) with false. cbv iota.
+    rewrite lookup_app. destruct (flux_uri b); cbn [lookup];
+      change (str_eqb (s "nodes") (s "flux_uri")) with false;
+      change (str_eqb (s "nodes") (s "nodes")) with true; reflexivity.
+  Qed.
+
+  (** the batch-level node count, or 1 *)
+  Lemma bnodes_facts : let v := get_default (b_kw b) (s "nodes") (VStr (s "1")) in
+    truthy v = true /\ safe_word (render v) /\ Some (render v) = or_default (declared (b_kw b) RNodes) (s "1").
+  Proof.
+    intros v. unfold v, get_default, declared. change (key_name RNodes) with (s "nodes").
+    pose proof (fp_bnodes c FP) as BN. fold b in BN.
+    destruct (lookup (s "nodes") (b_kw b)) as [x|] eqn:L.
+    - rewrite BN. split; auto. split; auto. apply digits_word. apply (decl_count_word (b_kw b) RNodes).
+      apply (bp_nodes _ _ BP). unfold decl. change (key_name RNodes) with (s "nodes"). rewrite L, BN. auto.
+    - split. reflexivity. split. apply one_word. reflexivity.
+  Qed.
+
+  (** the node count flux run gets for a requested count [nv] *)
+  Lemma ntasks_facts : forall nv wn, pv_ok nv wn ->
+    exists raw w, render (flux_ntasks bd nv) = raw /\ printed raw w
+      /\ Some w = or_default (match wn with Some n => Some n | None => declared (b_kw b) RNodes end) (s "1").
+  Proof.
+    intros nv wn PV. unfold flux_ntasks. rewrite bd_nodes_val.
+    destruct bnodes_facts as [BT [BS BE]].
+    destruct PV as [v TV | v raw w TV PR].
+    - unfold tval in TV. destruct (truthy v) eqn:T; try discriminate. rewrite BT.
+      exists (render (get_default (b_kw b) (s "nodes") (VStr (s "1")))), (render (get_default (b_kw b) (s "nodes") (VStr (s "1")))).
+      split; auto. split. apply printed_word; auto. rewrite BE. destruct (declared (b_kw b) RNodes); reflexivity.
+    - unfold tval in TV. destruct (truthy v) eqn:T; try discriminate. inversion TV. subst raw. rewrite T.
+      exists (render v), w. split; auto.
+  Qed.
+
+  Lemma cpt_facts : exists cw, flux_cpt addl = Some cw /\ safe_word cw
+    /\ Some cw = or_default (declared (st_res st) RCpusPerTask) (s "1").
+  Proof.
+    unfold flux_cpt, addl. rewrite lookup_addl by reflexivity. rewrite lookup_run_items by (split; reflexivity).
+    change (mem_str (s "cores per task") step_run_default_keys) with true. cbv iota.
+    unfold run_val, declared. change (key_name RCpusPerTask) with (s "cores per task").
+    destruct (lookup (s "cores per task") (st_res st)) as [v|] eqn:L.
+    - destruct (truthy v) eqn:T.
+      + eexists. split. reflexivity. split; auto. apply (decl_safe_word (st_res st) RCpusPerTask).
+        * pose proof (hp_vals c HP) as V. rewrite forallb_forall in V. apply V. simpl. tauto.
+        * unfold decl. change (key_name RCpusPerTask) with (s "cores per task"). rewrite L, T. auto.
+      + eexists. split. reflexivity. split. apply one_word. reflexivity.
+    - eexists. split. reflexivity. split. apply one_word. reflexivity.
+  Qed.
+
+  Lemma ftext_read : forall pv nv wp wn, pv_ok pv wp -> pv_ok nv wn ->
+    exists wnn cw,
+      read_flux_run (ftext pv nv) =
+        Some (opt_pair RTasks wp ++ [(RNodes, wnn)] ++ opt_pair RCpusPerTask (Some cw)
+              ++ opt_pair RGpus (declared (st_res st) RGpus) ++ opt_pair ROpts (flux_opts b))
+      /\ sub_ok (ftext pv nv) = true
+      /\ Some wnn = or_default (match wn with Some n => Some n | None => declared (b_kw b) RNodes end) (s "1")
+      /\ Some cw = or_default (declared (st_res st) RCpusPerTask) (s "1").
+  Proof.
+    intros pv nv wp wn Pp Pn.
+    destruct (pv_ok_pair _ _ Pp) as [op [P1 [P2 P3]]].
+    destruct (ntasks_facts nv wn Pn) as [nraw [nw [EN [PN WN]]]].
+    destruct cpt_facts as [cw [EC [SC WC]]].
+    destruct (gpus_facts c HP) as [EG SG]. fold st in EG.
+    exists nw, cw.
+    pose proof (read_flux_text op (nraw, nw) (opair (Some cw)) (opair (tval (v_gpus c))) (opair (flux_o (b_args b)))) as R.
+    simpl fst in R. simpl snd in R. rewrite !opair_raw, !opair_ow in R.
+    unfold ftext. rewrite <- P2, EN, EC. rewrite <- P3.
+    assert (FO : flux_o (b_args b) = flux_opts b) by (unfold flux_o, flux_opts; destruct (b_args b); reflexivity).
+    rewrite <- EG, <- FO.
+    destruct R as [R1 R2]; auto.
+    - apply opair_printed. intros x E. inversion E. subst. auto.
+    - apply opair_printed. auto.
+    - apply opair_printed. apply flux_o_word. apply (fp_args c FP).
+  Qed.
+
+  Lemma tsub_flux_ok : forall f, tok_wf f = true -> sub_ok (tsub_flux f) = true.
+  Proof.
+    intros f W. destruct (pv_tok f W) as [Pp Pn].
+    destruct (ftext_read _ _ _ _ Pp Pn) as [wnn [cw [_ [S _]]]]. exact S.
+  Qed.
+
+  Lemma bare_pv : pv_ok procs (declared (st_res st) RTasks) /\ pv_ok nodes (declared (st_res st) RNodes).
+  Proof.
+    split.
+    - apply (pv_count st RTasks). discriminate. apply (hp_procs c HP).
+    - apply (pv_count st RNodes). discriminate. apply (hp_nodes c HP).
+  Qed.
+  Lemma bsub_flux_ok : sub_ok bsub_flux = true.
+  Proof.
+    destruct bare_pv as [Pp Pn]. destruct (ftext_read _ _ _ _ Pp Pn) as [wnn [cw [_ [S _]]]]. exact S.
+  Qed.
+
+  Lemma sched_cmd_flux :
+    scheduler_command par st =
+    if schedulable st then
+      if alloc_rejected st (c_cmd c) then Err Diag
+      else if alloc_rejected st (c_restart c) then Err Diag
+      else Ok (true, segs_text (map (final_seg tsub_flux bsub_flux) (c_cmd c)),
+               segs_text (map (final_seg tsub_flux bsub_flux) (c_restart c)))
+    else Ok (false, st_cmd st, st_restart st).
+  Proof.
+    apply (sched_cmd_gen c HP par tsub_flux bsub_flux); auto using tsub_flux_ok.
+    - intros f W. apply par_flux_ftext.
+    - intros _ _. apply par_flux_ftext.
+  Qed.
+
+  Lemma launch_ok_final_flux : forall ps p, pieces_wf ps = true -> In p ps ->
+    launch_good (launch_ok_flux b st) (final_seg tsub_flux bsub_flux) p.
+  Proof.
+    intros ps p W I. unfold launch_good. destruct p as [t| |f]; auto.
+    - destruct bare_pv as [Pp Pn].
+      destruct (ftext_read _ _ _ _ Pp Pn) as [wnn [cw [R [S [WN WC]]]]]. simpl seg_text. unfold bsub_flux. split.
+      + unfold launch_ok_flux. rewrite R. unfold want_flux. rewrite <- WN, <- WC. apply reads_as_flux.
+      + intro E. rewrite E in S. discriminate S.
+    - pose proof (pieces_tok_wf st ps f W I) as TW. destruct (pv_tok f TW) as [Pp Pn].
+      destruct (ftext_read _ _ _ _ Pp Pn) as [wnn [cw [R [S [WN WC]]]]]. simpl seg_text. unfold tsub_flux. split.
+      + unfold launch_ok_flux. rewrite R. unfold want_flux. rewrite <- WN, <- WC. apply reads_as_flux.
+      + intro E. rewrite E in S. discriminate S.
+  Qed.
+End FluxStep.
+
+(** * the Flux script *)
+Lemma script_ok_sched_flux : forall c sched_ok n text rs,
+  schedulable (c_step c) = true -> c_be c = Flux -> rejected c = false ->
+  sched_ok (c_cmd c) text = true ->
+  match st_restart (c_step c), rs with
+  | [], None => True
+  | _ :: _, Some (_, rt) => sched_ok (c_restart c) rt = true
+  | _, _ => False
+  end ->
+  script_ok c sched_ok {| sc_sched := true; sc_name := n; sc_text := text; sc_restart := rs |} = true.
+Proof.
+  intros c sched_ok n text rs SC BE RJ G1 G2. unfold script_ok. cbv zeta. rewrite SC, BE.
+  cbn [negb orb backend_eqb Bool.eqb sc_sched sc_text sc_restart]. rewrite RJ, G1. cbn [negb andb].
+  destruct (st_restart (c_step c)); destruct rs as [[rn rt]|]; try contradiction; auto.
+Qed.
+
+Section FluxScript.
+  Variable c : case.
+  Hypothesis HP : H15_parts c.
+  Hypothesis FP : flux_parts c.
+  Hypothesis BP : batch_parts (c_be c) (c_batch c).
+  Hypothesis BE : c_be c = Flux.
+  Let st := c_step c.
+  Let b := c_batch c.
+  Let broker := c_broker c.
+  Variables (w : str) (x : N).
+  Hypothesis Hw : flux_walltime (run_val st (s "walltime")) = Ok w.
+  Hypothesis Wnl : ~ In nl w.
+  Hypothesis Hx : flux_seconds (declared (st_res st) RWalltime) = Some x.
+  Hypothesis Wx : read_seconds w = Some x.
+  Let lines := flux_lines b broker st w.
+  Definition finf (ps : list piece) : str := segs_text (map (final_seg (tsub_flux c) (bsub_flux c)) ps).
+
+  Lemma flux_lines_comments : forallb comment_line (flat_map (split_on nl) lines) = true.
+  Proof. apply comment_lines_flat. apply (flux_lines_ok c HP FP BP w Wnl). Qed.
+
+  Lemma flux_exec_shell : flux_exec b = shell_of (b_kw b).
+  Proof. reflexivity. Qed.
+
+  Lemma flux_header_reads : forall body,
+    let text := join [nl] lines ++ nl :: nl :: body in
+    opt_eqb (read_flux_info text (s "nodes")) (effective_flux_nodes b st) = true
+    /\ flux_walltime_ok (effective b st RWalltime) (read_flux_info text (s "walltime")) = true.
+  Proof.
+    intros body text. unfold text, lines.
+    destruct (flux_lines_shape c w) as [rest E]. fold st b broker in E. rewrite E.
+    destruct (flux_nodes_word c HP FP BP) as [_ _ NN _ _]. fold st b in NN.
+    destruct (flux_info_reads (render (flux_exec b)) (render (flux_nodes b st)) w rest body) as [R1 R2]; auto.
+    { rewrite flux_exec_shell. apply (shell_safe (c_be c)). auto. }
+    split.
+    - match goal with |- opt_eqb ?X _ = true =>
+        replace X with (Some (render (flux_nodes b st))) by (symmetry; exact R1) end.
+      unfold effective_flux_nodes, effective. simpl batch_level. cbv iota.
+      destruct (total_run_val st RNodes ltac:(discriminate) (hp_nodes c HP)) as [_ [_ [TV _]]].
+      change (key_name RNodes) with (s "nodes") in TV. rewrite <- TV. unfold flux_nodes, tval.
+      destruct (truthy (run_val st (s "nodes"))).
+      + apply opt_eqb_refl.
+      + destruct (bnodes_facts c FP BP) as [_ [_ BE']]. fold b in BE'. rewrite BE'.
+        destruct (declared (b_kw b) RNodes); apply opt_eqb_refl.
+    - match goal with |- flux_walltime_ok _ ?X = true =>
+        replace X with (Some w) by (symmetry; exact R2) end.
+      unfold flux_walltime_ok.
+      assert (EF : effective b st RWalltime = declared (st_res st) RWalltime).
+      { unfold effective. simpl batch_level. cbv iota. destruct (declared (st_res st) RWalltime); auto. }
+      rewrite EF, Hx, Wx. apply N.eqb_refl.
+  Qed.
+
+  Lemma finf_start : forall ps, pieces_wf ps = true -> starts_cmd ps = true ->
+    exists c0 t, finf ps ++ [nl] = c0 :: t /\ cmd_start c0 = true.
+  Proof.
+    intros ps W S. destruct ps as [|p r]. discriminate S. unfold finf. rewrite map_cons, segs_text_cons.
+    destruct p as [t0| |f]; simpl seg_text.
+    - destruct t0 as [|c0 t0]. discriminate S. exists c0. eexists. split. rewrite <- !app_assoc. reflexivity. exact S.
+    - unfold bsub_flux, ftext, flux_text. cbn [app]. rewrite join_cons by discriminate.
+      exists 102. eexists. split. rewrite <- !app_assoc. reflexivity. reflexivity.
+    - unfold tsub_flux, ftext, flux_text. cbn [app]. rewrite join_cons by discriminate.
+      exists 102. eexists. split. rewrite <- !app_assoc. reflexivity. reflexivity.
+  Qed.
+
+  Lemma lines_nonnil_f : lines <> [].
+  Proof. unfold lines, flux_lines. discriminate. Qed.
+
+  Lemma flux_first_line : forall c0 t, first_line (join [nl] lines ++ nl :: nl :: c0 :: t) = shebang_of b.
+  Proof.
+    intros. rewrite (first_line_eq lines c0 t lines_nonnil_f flux_lines_comments (flux_shebang_line b) _ eq_refl).
+    reflexivity. apply (flux_shebang_ok c BP).
+  Qed.
+
+  Lemma flux_script_good : forall ps, pieces_wf ps = true -> starts_cmd ps = true ->
+    flux_script_ok c ps (join [nl] lines ++ nl :: nl :: finf ps ++ [nl]) = true.
+  Proof.
+    intros ps W S. destruct (finf_start ps W S) as [c0 [t [E CS]]]. rewrite E.
+    pose proof flux_lines_comments as CLl. pose proof lines_nonnil_f as NE.
+    assert (SB : script_body (join [nl] lines ++ nl :: nl :: c0 :: t) = c0 :: t)
+      by (apply script_body_eq; auto).
+    destruct (flux_header_reads (c0 :: t)) as [RN RW].
+    unfold flux_script_ok. rewrite SB. fold st b. rewrite RN, RW.
+    rewrite (proj2 (str_eqb_eq _ _) (flux_first_line c0 t)). cbn [andb].
+    apply andb_true_iff. split.
+    - apply negb_true_iff. rewrite <- E. unfold finf.
+      change [nl] with (seg_text (SSub [nl])).
+      replace (segs_text (map (final_seg (tsub_flux c) (bsub_flux c)) ps) ++ seg_text (SSub [nl]))
+        with (segs_text (map (final_seg (tsub_flux c) (bsub_flux c)) ps ++ [SSub [nl]])).
+      2:{ rewrite segs_text_app. reflexivity. }
+      rewrite contains_var_segs.
+      + rewrite existsb_app. rewrite final_no_var. reflexivity.
+      + apply segs_ok_snoc; [|reflexivity].
+        apply (final_seg_ok (par_flux (flux_bd b) (b_args b) (addl_args st)) (tsub_flux c)); auto.
+        * intros f TW. apply (par_flux_ftext c).
+        * intros f TW. apply (tsub_flux_ok c HP FP BP); auto.
+        * apply (bsub_flux_ok c HP FP BP).
+    - rewrite <- E. unfold finf. apply match_body_final.
+      + reflexivity.
+      + intros p I. apply (launch_ok_final_flux c HP FP BP ps); auto.
+  Qed.
+
+  (** a local step: the header is there, the command is verbatim *)
+  Lemma flux_verbatim : forall ps, pieces_wf ps = true -> starts_cmd ps = true ->
+    verbatim_ok c (pieces_text ps) (join [nl] lines ++ nl :: nl :: pieces_text ps ++ [nl]) = true.
+  Proof.
+    intros ps W S.
+    assert (ST : exists c0 t, pieces_text ps ++ [nl] = c0 :: t /\ cmd_start c0 = true).
+    { destruct ps as [|p r]. discriminate S. unfold pieces_text. simpl flat_map. destruct p as [t0| |f]; simpl piece_text.
+      - destruct t0 as [|c0 t0]. discriminate S. exists c0. eexists. split. rewrite <- !app_assoc. reflexivity. exact S.
+      - rewrite var_eq. exists dollar. eexists. split. rewrite <- !app_assoc. reflexivity. reflexivity.
+      - rewrite tok_text_eq, var_eq. exists dollar. eexists. split. rewrite <- !app_assoc. reflexivity. reflexivity. }
+    destruct ST as [c0 [t [E CS]]]. unfold verbatim_ok. rewrite !E. apply andb_true_iff. split; apply str_eqb_eq.
+    - apply flux_first_line.
+    - apply script_body_eq; auto. apply lines_nonnil_f. apply flux_lines_comments.
+  Qed.
+End FluxScript.
+
+(** * the theorem *)
+Lemma flux_body_eq : forall cmd, format flux_body (pos1 cmd) = Ok (nl :: nl :: cmd ++ [nl]).
+Proof. intros. unfold flux_body, pos1. simpl. rewrite ?app_nil_r. reflexivity. Qed.
+Lemma flux_local_header_eq : forall b, format flux_local_header [(s "0", flux_exec b)] = Ok (shebang_of b).
+Proof. intros. unfold flux_local_header, shebang_of. simpl. rewrite ?app_nil_r. reflexivity. Qed.
+Lemma flux_name_ok : forall tpl n, tpl = flux_script_name \/ tpl = flux_restart_name ->
+  exists nm, format tpl (pos2 n flux_extension) = Ok nm.
+Proof. intros tpl n [E|E]; subst; simpl; eexists; reflexivity. Qed.
+
+Theorem flux_holds : forall c, H15 c = true -> c_be c = Flux -> C15_holds c (run_model c) = true.
+Proof.
+  intros c H BE.
+  pose proof (H15_unpack c H) as HP. pose proof (batch_unpack _ _ (hp_batch c HP)) as BP.
+  assert (FP : flux_parts c).
+  { apply flux_unpack. pose proof (hp_flux c HP) as L. rewrite BE in L. simpl in L. exact L. }
+  set (st := c_step c) in *. set (b := c_batch c) in *.
+  destruct (fp_wall c FP) as [x Hx]. fold st in Hx.
+  destruct (flux_wall_facts st x Hx (fp_wnone c FP)) as [w [Hw [Wnl Wx]]].
+  unfold run_model. rewrite BE. fold st b. unfold write_flux.
+  rewrite batch_flux_eq. cbn [bind].
+  unfold st at 1 2. unfold b at 1 2. rewrite (sched_cmd_flux c HP FP BP). fold st b.
+  unfold header_flux. rewrite (header_lines_flux_eq b (c_broker c) st w Hw).
+  set (lines := flux_lines b (c_broker c) st w).
+  destruct (schedulable st) eqn:SC.
+  - destruct (alloc_rejected st (c_cmd c)) eqn:R1.
+    { unfold C15_holds. rewrite BE. fold st. rewrite SC. unfold rejected. fold st. rewrite R1. reflexivity. }
+    destruct (alloc_rejected st (c_restart c)) eqn:R2.
+    { unfold C15_holds. rewrite BE. fold st. rewrite SC. unfold rejected. fold st. rewrite R2. rewrite orb_true_r. reflexivity. }
+    assert (RJ : rejected c = false) by (unfold rejected; fold st; rewrite R1, R2; reflexivity).
+    cbn [bind]. cbv beta iota.
+    destruct (flux_name_ok flux_script_name (st_name st) (or_introl eq_refl)) as [nm1 N1]. rewrite N1. cbn [bind].
+    rewrite flux_body_eq. cbn [bind].
+    set (cmd' := segs_text (map (final_seg (tsub_flux c) (bsub_flux c)) (c_cmd c))).
+    set (rst' := segs_text (map (final_seg (tsub_flux c) (bsub_flux c)) (c_restart c))).
+    assert (G1 : flux_script_ok c (c_cmd c) (join [nl] lines ++ nl :: nl :: cmd' ++ [nl]) = true).
+    { apply (flux_script_good c HP FP BP w x); auto. apply (hp_cmd_wf c HP). apply (hp_cmd_start c HP). }
+    unfold restart_part.
+    assert (CRd : c_restart c = [] \/ c_restart c <> []) by (destruct (c_restart c); [left|right]; congruence).
+    destruct CRd as [CR|CR].
+    + assert (RS : st_restart st = []).
+      { pose proof (hp_restart c HP) as E. fold st in E. rewrite <- E, CR. reflexivity. }
+      assert (Z : rst' = []) by (unfold rst'; rewrite CR; reflexivity). rewrite Z. cbn [bind].
+      unfold C15_holds. rewrite BE. apply script_ok_sched_flux; auto. fold st. rewrite RS. exact I.
+    + assert (SR : starts_cmd (c_restart c) = true).
+      { pose proof (hp_restart_start c HP) as X. destruct (c_restart c); auto; congruence. }
+      assert (G2 : flux_script_ok c (c_restart c) (join [nl] lines ++ nl :: nl :: rst' ++ [nl]) = true).
+      { apply (flux_script_good c HP FP BP w x); auto. apply (hp_restart_wf c HP). }
+      assert (NE : rst' <> []).
+      { destruct (finf_start c (c_restart c)) as [c0 [t [E CS]]]; auto.
+        { apply (hp_restart_wf c HP). }
+        intro Z. unfold finf in E. fold rst' in E. rewrite Z in E. simpl in E.
+        inversion E. subst c0. discriminate CS. }
+      assert (RS : exists r0 r1, st_restart st = r0 :: r1).
+      { pose proof (hp_restart c HP) as E. fold st in E. destruct (st_restart st) eqn:SRs; eauto.
+        apply pieces_text_nil in E; auto. congruence. apply (hp_restart_wf c HP). }
+      destruct RS as [r0 [r1 RS]].
+      destruct rst' as [|y z] eqn:RR. congruence. rewrite <- RR in *.
+      destruct (flux_name_ok flux_restart_name (st_name st) (or_intror eq_refl)) as [nm2 N2]. rewrite N2. cbn [bind].
+      rewrite flux_body_eq. cbn [bind]. rewrite flux_local_header_eq. cbn [bind].
+      unfold C15_holds. rewrite BE. apply script_ok_sched_flux; auto. fold st. rewrite RS. exact G2.
+  - cbn [bind]. cbv beta iota.
+    destruct (flux_name_ok flux_script_name (st_name st) (or_introl eq_refl)) as [nm1 N1]. rewrite N1. cbn [bind].
+    rewrite flux_body_eq. cbn [bind].
+    assert (G1 : verbatim_ok c (st_cmd st) (join [nl] lines ++ nl :: nl :: st_cmd st ++ [nl]) = true).
+    { pose proof (hp_cmd c HP) as E. fold st in E. rewrite <- E. apply (flux_verbatim c HP FP BP w); auto.
+      apply (hp_cmd_wf c HP). apply (hp_cmd_start c HP). }
+    unfold restart_part.
+    destruct (st_restart st) as [|r0 r1] eqn:RS.
+    + cbn [bind]. unfold C15_holds. rewrite BE. apply script_ok_local; auto. fold st. rewrite RS. exact I.
+    + rewrite <- RS.
+      destruct (flux_name_ok flux_restart_name (st_name st) (or_intror eq_refl)) as [nm2 N2]. rewrite N2. cbn [bind].
+      rewrite flux_body_eq. cbn [bind]. rewrite flux_local_header_eq. cbn [bind].
+      assert (G2 : verbatim_ok c (st_restart st) (shebang_of b ++ nl :: nl :: st_restart st ++ [nl]) = true).
+      { pose proof (hp_restart c HP) as E. fold st in E. rewrite <- E. apply verbatim_good; auto.
+        apply (hp_restart_wf c HP).
+        pose proof (hp_restart_start c HP) as X. destruct (c_restart c) eqn:CR; auto.
+        unfold pieces_text in E. simpl in E. rewrite RS in E. discriminate. }
+      unfold C15_holds. rewrite BE. apply script_ok_local; auto. fold st. rewrite RS. rewrite <- RS. exact G2.
+Qed.
+
+Lemma C15_ok_flux : forall c, c_be c = Flux -> C15_ok c (run_model c) = true.
+Proof.
+  intros c BE. unfold C15_ok. destruct (H15 c) eqn:H; auto. simpl. apply flux_holds; auto.
+Qed.
+
+Definition flux_header_reads_p (c : case) (text : str) : Prop :=
+  first_line text = shebang_of (c_batch c) /\
+  read_flux_info text (s "nodes") = effective_flux_nodes (c_batch c) (c_step c) /\
+  flux_walltime_ok (effective (c_batch c) (c_step c) RWalltime) (read_flux_info text (s "walltime")) = true.
+Definition flux_launcher_reads (c : case) (ps : list piece) (text : str) : Prop :=
+  containsb launcher_var (script_body text) = false /\
+  match_body (launch_ok_flux (c_batch c) (c_step c)) (ps ++ [PText [nl]]) (script_body text) = true.
+
+Lemma flux_script_ok_reads : forall c ps text, flux_script_ok c ps text = true ->
+  flux_header_reads_p c text /\ flux_launcher_reads c ps text.
+Proof.
+  intros c ps text H. unfold flux_script_ok in H.
+  repeat (apply andb_true_iff in H; destruct H as [H ?]).
+  apply str_eqb_eq in H. apply negb_true_iff in H1. apply opt_eqb_eq in H3.
+  split; [split; [auto|split; auto]|split; auto].
+Qed.
+
+Lemma C15_flux_sched_lemma : forall c, H15 c = true -> c_be c = Flux -> schedulable (c_step c) = true ->
+  (rejected c = true /\ run_model c = OExc Diag) \/
+  (rejected c = false /\ exists sc, run_model c = OScript sc /\ sc_sched sc = true
+     /\ flux_header_reads_p c (sc_text sc) /\ flux_launcher_reads c (c_cmd c) (sc_text sc)
+     /\ match st_restart (c_step c), sc_restart sc with
+        | [], None => True
+        | _ :: _, Some (_, rt) => flux_header_reads_p c rt /\ flux_launcher_reads c (c_restart c) rt
+        | _, _ => False
+        end).
+Proof.
+  intros c H BE SC.
+  assert (Hh : C15_holds c (run_model c) = true) by (apply flux_holds; auto).
+  destruct (run_model c) as [e|sc].
+  - left. destruct e; simpl in Hh; try discriminate.
+    repeat (apply andb_true_iff in Hh; destruct Hh as [Hh ?]). auto.
+  - right. simpl in Hh. rewrite BE in Hh. unfold script_ok in Hh. cbv zeta in Hh.
+    rewrite SC, BE in Hh. cbn [negb orb backend_eqb] in Hh.
+    repeat (apply andb_true_iff in Hh; destruct Hh as [Hh ?]).
+    apply andb_true_iff in H1. destruct H1 as [RJ SO].
+    apply negb_true_iff in RJ. split; auto. exists sc.
+    destruct (flux_script_ok_reads _ _ _ SO) as [A B].
+    split; [auto|]. split; [destruct (sc_sched sc); simpl in *; congruence|]. split; [exact A|]. split; [exact B|].
+    destruct (st_restart (c_step c)); destruct (sc_restart sc) as [[rn rt]|]; auto; try discriminate.
+    apply flux_script_ok_reads. auto.
+Qed.
+
+Lemma C15_total_flux_lemma : forall c, H15 c = true -> c_be c = Flux -> run_model c <> OExc Internal.
+Proof. intros c H BE X. pose proof (flux_holds c H BE) as Hh. rewrite X in Hh. discriminate Hh. Qed.
